@@ -216,6 +216,54 @@ def rule_both_sides(ctx, ts):
         ctx.ob(S, sup.rel, f"{lang}: option constants defined unconditionally in the support header", not fd, "" if not fd else f"under {fd}", dl.lineno)
 
 
+def rule_options_view(ctx, ts, px):
+    """R-C17-BOTH-SIDES, the Python half: the two loops are only as complete as what `options.items()` hands them.  The template
+    namespace must return the complete mapping (no filter) every time, as a view that can be walked again: a header that fetches the
+    items once and walks them twice (comment block, assertion block) finds a one-shot iterator exhausted at the second loop and emits
+    no assertion at all."""
+    R = "R-C17-BOTH-SIDES"
+    cls = px.cls("nunavut.jinja.environment", "LanguageTemplateNamespace")
+    for mname in ("items",):
+        f = cls.methods.get(mname)
+        if f is None:
+            raise AnalysisError(f"anchor missing: LanguageTemplateNamespace.{mname}")
+        rets = [pyfront.subst_locals(f.node, r.value) for r in ast.walk(f.node) if isinstance(r, ast.Return) and r.value is not None]
+        if not rets:
+            raise AnalysisError(f"anchor missing: return of LanguageTemplateNamespace.{mname}")
+
+        def classify(e):
+            if isinstance(e, ast.Call) and isinstance(e.func, ast.Attribute) and e.func.attr == mname and not e.args:
+                inner = ast.unparse(e.func.value).replace(" ", "")
+                if inner in ("self.__dict__", "vars(self)", "dict(self.__dict__)", "dict(vars(self))"):
+                    return "view", True
+            if isinstance(e, ast.Call) and isinstance(e.func, ast.Name) and e.func.id in ("list", "tuple", "sorted", "dict") and len(e.args) == 1:
+                k, complete = classify(e.args[0])
+                return "view", complete
+            if isinstance(e, (ast.ListComp, ast.DictComp)):
+                return "view", not any(g.ifs for g in e.generators)
+            if isinstance(e, ast.GeneratorExp):
+                return "one-shot", not any(g.ifs for g in e.generators)
+            if isinstance(e, ast.Call) and isinstance(e.func, ast.Name) and e.func.id in ("iter", "map", "filter", "zip", "reversed"):
+                return "one-shot", e.func.id != "filter"
+            return "?", True
+        kinds = [classify(r) for r in rets]
+        reiterable = all(k == "view" for k, _c in kinds)
+        complete = all(c for _k, c in kinds)
+        # (a filter applied here hides an option from the defining and the asserting loop alike; both stay in step, so it is not judged)
+        ctx.ob(R, f.module.rel, f"{f.short} :: what it returns is recognised (view or one-shot iterator)", all(k != "?" for k, _ in kinds),
+               "" if all(k != "?" for k, _ in kinds) else f"`return {ast.unparse(rets[0])[:80]}`", f.node.lineno)
+        shared = []
+        for t in ts.templates:
+            if t.lang in ("c", "cpp"):
+                for name, expr, uses, ln in getattr(t.ast, "nvsa_shared_iterables", []) or []:
+                    if "options" in expr:
+                        shared.append((t, name, expr, uses, ln))
+        for t, name, expr, uses, ln in shared:
+            ctx.ob(R, t.rel, f"{t.lang}: `{name} = {expr}` is walked {uses} times: the namespace returns a view that can be walked again", reiterable,
+                   "" if reiterable else f"{f.short} returns a one-shot iterator (`{ast.unparse(rets[0])[:60]}`): the first loop over `{name}` uses it up and the next one - "
+                   "the per-option assertions - runs over nothing, so headers generated with different options compile together", ln)
+
+
 def rule_include_scope(ctx, px):
     S = "R-C17-SCOPE"
     f = px.func("nunavut.lang._common", "IncludeGenerator.generate_include_filepart_list")
@@ -408,6 +456,33 @@ def rule_fold(ctx, px):
                                        "different values carry the same constant and compile together" for k, v, t, _ in folds), folds[0][3] if folds else m.node.lineno)
 
 
+def rule_options_published(ctx, px):
+    """R-C17-VALUE: the option set the templates enumerate (Language.get_options) is the configured one.  A language that overrides
+    get_options to leave keys out hides them from both the defining and the asserting loop, while the Python side (get_option in
+    get_includes, the filters) still lets them shape the headers: two headers that differ in such an option compile together."""
+    R = "R-C17-VALUE"
+    for lang in ("c", "cpp"):
+        cls = px.cls(f"nunavut.lang.{lang}", "Language")
+        m = cls.methods.get("get_options")
+        if m is None:
+            ctx.ob(R, cls.module.rel, f"{lang}: every configured option is published to the templates (get_options not overridden)", True, "")
+            continue
+        lossy = []
+        for r in [x for x in ast.walk(m.node) if isinstance(x, ast.Return) and x.value is not None]:
+            v = pyfront.subst_locals(m.node, r.value)
+            for c in ast.walk(v):
+                if isinstance(c, (ast.DictComp, ast.ListComp, ast.GeneratorExp, ast.SetComp)) and any(g.ifs for g in c.generators):
+                    lossy.append(f"line {r.lineno}: filtered comprehension `{ast.unparse(c)[:70]}`")
+        for c in ast.walk(m.node):
+            if isinstance(c, ast.Call) and isinstance(c.func, ast.Attribute) and c.func.attr in ("pop", "popitem", "clear"):
+                lossy.append(f"line {c.lineno}: {ast.unparse(c)[:50]}")
+            if isinstance(c, ast.Delete):
+                lossy.append(f"line {c.lineno}: {ast.unparse(c)[:50]}")
+        ctx.ob(R, cls.module.rel, f"{lang}: {m.short} publishes every configured option to the templates", not lossy,
+               "" if not lossy else f"{lossy}: an option left out here is neither defined in the support header nor asserted in the type headers, although "
+               "get_option() still reads it when the headers are generated", m.node.lineno)
+
+
 def run(ctx):
     ctx.explanation = (
         "C17 is decided as a sibling-agreement check over the template ASTs: the loop that defines the per-option "
@@ -420,6 +495,8 @@ def run(ctx):
     ts = j2front.TemplateSet(ctx.root)
     px = pyfront.PyIndex(ctx.root)
     rule_both_sides(ctx, ts)
+    rule_options_view(ctx, ts, px)
     rule_include_scope(ctx, px)
     rule_value(ctx, px, ctx.root)
     rule_fold(ctx, px)
+    rule_options_published(ctx, px)
